@@ -3,6 +3,6 @@ import CanvasModel.C09.Proto
 import CanvasGen.BezierF
 open Canvas
 def handle : List String → Option String
-  | "L1" :: name :: args => GenF.dispatchBezier name args
+  | "L1" :: name :: args => (GenF.dispatchCore name args) <|> (GenF.dispatchBezier name args)
   | ts => Canvas.C09.handle ts
 def main : IO Unit := runDriver handle
